@@ -1225,7 +1225,7 @@ impl Engine {
             nthreads,
             handles: (0..nthreads).map(|_| None).collect(),
             chandle: Some(chandle),
-            watchdog: Duration::from_secs(20),
+            watchdog: Duration::from_secs(60),
             spawned: 0,
             exited: 0,
         }
